@@ -15,13 +15,18 @@ type c08Params struct {
 	Parked   []int // indices of requests held in the implementation
 	Release  []int // release order (a permutation of Parked)
 	TwoConns bool
+	SlowFirst bool // the first connection's client stops reading: its replies pile up, the second connection must not notice
 	Maxpend  int
 	Dotu     bool
 	P        int
 }
 
 func (p c08Params) name() string {
-	return fmt.Sprintf("progress kinds=%v parked=%v release=%v twoconns=%v maxpend=%d dotu=%v", p.Kinds, p.Parked, p.Release, p.TwoConns, p.Maxpend, p.Dotu)
+	slow := ""
+	if p.SlowFirst {
+		slow = " first-connection-not-reading"
+	}
+	return fmt.Sprintf("progress kinds=%v parked=%v release=%v twoconns=%v maxpend=%d dotu=%v%s", p.Kinds, p.Parked, p.Release, p.TwoConns, p.Maxpend, p.Dotu, slow)
 }
 
 func c08Progress(p c08Params) Scenario {
@@ -62,6 +67,9 @@ func c08Progress(p c08Params) Scenario {
 		}
 		s.setupN = len(s.c.Collect())
 		vs.Window(true)
+		if p.SlowFirst {
+			s.c.SrvEnd.StallOutgoing()
+		}
 		s.c.Send(p.Dotu, s.msgs...)
 		if c2 != nil {
 			c2.Send(p.Dotu, &wire.Msg{Type: wire.Tstat, Tag: 100, Fid: 0})
@@ -86,6 +94,10 @@ func c08Progress(p c08Params) Scenario {
 			s.gates[i].Release()
 		}
 		vs.Idle()
+		if p.SlowFirst {
+			s.c.SrvEnd.UnstallOutgoing()
+			vs.Idle()
+		}
 		vs.Window(false)
 		s.c.Collect()
 	}
@@ -99,6 +111,12 @@ func c08Progress(p c08Params) Scenario {
 		for i, t := range s.tags {
 			if strings.HasSuffix(p.Kinds[i], "+destroy") {
 				continue // its own reply may or may not wait for its own FidDestroy
+			}
+			if p.SlowFirst {
+				if phase1[t] {
+					return &Viol{Sig: "C08/harness/reply-through-a-stalled-transport", Msg: "a reply arrived although the transport was stalled", Detail: detail}
+				}
+				continue // this connection's replies wait for its own client
 			}
 			if !isParked[i] && !phase1[t] {
 				return &Viol{Sig: "C08/delayed-by-blocked-request/" + p.Kinds[i], Msg: fmt.Sprintf("request %d (%s) had no reply while requests %v were blocked in the implementation and nothing else could run\n%s", i, s.msgs[i], p.Parked, framesString(frames)), Detail: detail}
@@ -313,6 +331,18 @@ func c08DestroyScenarios(P int) []Scenario {
 	return out
 }
 
+// the client of the first connection stops reading (finished requests pile up behind
+// its blocked writer, with every Maxpend): the second connection is served meanwhile
+func c08SlowScenarios(P int) []Scenario {
+	var out []Scenario
+	for i, ks := range [][]string{{"stat", "read"}, {"clunk", "walk"}, {"read", "write", "stat"}} {
+		pp := P - 1
+		out = append(out, c08Progress(c08Params{Kinds: ks, TwoConns: true, SlowFirst: true, Maxpend: i % 3, Dotu: i%2 == 1, P: pp}))
+		out = append(out, c08Progress(c08Params{Kinds: ks, Parked: []int{0}, Release: []int{0}, TwoConns: true, SlowFirst: true, Maxpend: (i + 1) % 3, Dotu: i%2 == 0, P: pp}))
+	}
+	return out
+}
+
 func c08Scenarios(tier string) []Scenario {
 	var out []Scenario
 	kinds := []string{"read", "stat", "write", "walk", "clunk", "open"}
@@ -333,6 +363,7 @@ func c08Scenarios(tier string) []Scenario {
 		}
 		out = append(out, c08Progress(c08Params{Kinds: []string{"write", "stat"}, Parked: []int{0}, Release: []int{0}, TwoConns: true, Maxpend: 0, P: 1}))
 		out = append(out, c08DestroyScenarios(2)...)
+		out = append(out, c08SlowScenarios(2)...)
 		out = append(out, c08Group(c08GroupParams{Group: 2, FirstGate: true, Others: 1, Maxpend: 0, Dotu: true, P: 2}))
 		out = append(out, c08Group(c08GroupParams{Group: 2, FirstGate: false, Others: 0, Maxpend: 1, Split: true, P: 2}))
 		out = append(out, c08Group(c08GroupParams{Group: 3, FirstGate: true, Others: 2, Maxpend: 2, P: 1}))
@@ -360,6 +391,7 @@ func c08Scenarios(tier string) []Scenario {
 	}
 	out = append(out, c08Progress(c08Params{Kinds: []string{"read", "stat", "write", "walk", "clunk", "open", "stat", "read"}, Parked: []int{0, 2, 3, 4, 5, 6}, Release: []int{6, 5, 4, 3, 2, 0}, TwoConns: true, Maxpend: 1, P: 0}))
 	out = append(out, c08DestroyScenarios(3)...)
+	out = append(out, c08SlowScenarios(3)...)
 	for _, g := range []int{2, 3} {
 		for _, fg := range []bool{true, false} {
 			for _, mp := range []int{0, 1, 2} {
@@ -379,7 +411,7 @@ func c08Scenarios(tier string) []Scenario {
 func init() {
 	register(&Property{ID: "C08", Level: "model_checking",
 		Technique: "stateless model checking of the real server under a controlled scheduler (all schedules within a preemption bound); blocking decided at quiescent states, no clocks",
-		Rule:      "every schedule with at most P preemptions per scenario: (a) every non-empty proper subset of n requests parked in the implementation, every release order, one or two connections, Maxpend 0..2, plus implementations blocked inside FidDestroy - at the quiescent state reached while the subset is parked every other request must have its reply; (b) groups of 2..8 requests under one tag mixed with other tags - start/finish intervals in the implementation log disjoint and in arrival order, replies in that order. distinct = distinct per-object operation orders",
+		Rule:      "every schedule with at most P preemptions per scenario: (a) every non-empty proper subset of n requests parked in the implementation, every release order, one or two connections, Maxpend 0..2, plus implementations blocked inside FidDestroy, plus a first connection whose client stops reading - at the quiescent state reached while the subset is parked every other request must have its reply; (b) groups of 2..8 requests under one tag mixed with other tags - start/finish intervals in the implementation log disjoint and in arrival order, replies in that order. distinct = distinct per-object operation orders",
 		Assumptions: []string{"code between two synchronisation operations is atomic (race-free executions)", "transport modelled as an unbounded reliable byte queue", "'delayed' means: not answered in a state where nothing but the blocked requests could still run"},
-		Scenarios:   c08Scenarios, QuickS: 100, ThoroughS: 1500})
+		Scenarios:   c08Scenarios, QuickS: 180, ThoroughS: 1500})
 }
